@@ -13,6 +13,7 @@ import json
 import random
 import sys
 import time
+import os
 from decimal import Decimal
 from fractions import Fraction
 
@@ -340,9 +341,19 @@ def oracle_C04(rnd, budget):
 def _regex_worker(fname, pat, subj, flags, q):
     p = SqParser()
     src = '%s(s, p%s)' % (fname, ', f' if flags else '')
-    t0 = time.time()
+    t0 = time.process_time()
     r = run(p, src, names={'s': subj, 'p': pat, 'f': flags})
-    q.put((time.time() - t0, r[0]))
+    q.put((time.process_time() - t0, r[0]))
+
+
+def _cpu_seconds(pid):
+    """processor time a live process has used so far (None when it cannot be read)"""
+    try:
+        with open('/proc/%d/stat' % pid) as f:
+            fields = f.read().rsplit(')', 1)[1].split()
+        return (int(fields[11]) + int(fields[12])) / os.sysconf('SC_CLK_TCK')
+    except Exception:
+        return None
 
 
 def oracle_C05(rnd, budget):
@@ -362,22 +373,27 @@ def oracle_C05(rnd, budget):
             case()
             q = mp.Queue()
             w = mp.Process(target=_regex_worker, args=(fname, pat, subj, flags, q))
+            # the bound is measured in processor seconds of the isolated worker (equal to wall-clock time on an idle machine, and not
+            # inflated when the 16 cores are oversubscribed by other checks): the watchdog waits 2 s, then for as long as the worker has
+            # used less than 2 s of processor time (at most 40 s)
             t0 = time.time()
             w.start()
             w.join(2.0)
+            while w.is_alive() and time.time() - t0 < 40 and (_cpu_seconds(w.pid) or 0) < 2.0 + 1.0:   # + start-up of the worker
+                w.join(0.2)
             extra = {'known_id': kid} if kid else {}
             if w.is_alive():
                 w.kill()
                 w.join()
-                fail(what='regex builtin did not return within 2 s (killed by the watchdog)', fname=fname, pattern=pat[:60], pattern_len=len(pat),
-                     subject_len=len(subj), flags=flags, **extra)
+                fail(what='regex builtin did not return within 2 s of processor time (killed by the watchdog)', fname=fname, pattern=pat[:60],
+                     pattern_len=len(pat), subject_len=len(subj), flags=flags, **extra)
             else:
                 try:
-                    dt, oc = q.get(timeout=1)
+                    dt, oc = q.get(timeout=5)
                 except Exception:
                     dt, oc = time.time() - t0, '?'
                 if dt > 1.0:
-                    fail(what='regex builtin took more than a second', fname=fname, pattern=pat[:60], pattern_len=len(pat), subject_len=len(subj),
+                    fail(what='regex builtin took more than a second of processor time', fname=fname, pattern=pat[:60], pattern_len=len(pat), subject_len=len(subj),
                          seconds=round(dt, 2), outcome=oc, **extra)
 
 
